@@ -348,7 +348,9 @@ func c34Case(g *Gen, nOps int) {
 		if burst && g.Intn(3) != 0 {
 			kind, sub = 0, g.Pick(6, 6, 6, 5, 7)
 		}
-		if i >= 5 && g.Intn(2) == 0 {
+		if ac.unbond.Sign() > 0 && g.Intn(2) == 0 {
+			kind = 1 // delegate while something is unbonding
+		} else if i >= 5 && g.Intn(2) == 0 {
 			kind = g.Pick(1, 2, 2, 0) // bonders: bond / unbond / delegate / stake around the unbonding amount
 		}
 		if kind == 0 && sub == 6 && ac.stake.Cmp(using) == 0 {
@@ -384,7 +386,7 @@ func c34Case(g *Gen, nOps int) {
 			line = fmt.Sprintf("stake %d %s", i, v)
 		case 1: // delegation
 			avail := new(big.Int).Sub(ac.stake, new(big.Int).Add(ac.bond, ac.unbond))
-			if ac.unbond.Sign() > 0 && g.Intn(3) == 0 {
+			if ac.unbond.Sign() > 0 && g.Intn(2) == 0 {
 				avail.Add(avail, c34Amt(g, ac.unbond)) // probe: count (part of) the unbonding amount as free
 			}
 			k := g.Intn(4)
